@@ -17,6 +17,16 @@ ASSUMPTIONS = [
     "process zone changed only through os.environ['TZ'] + time.tzset() and restored",
     "tzinfos callables are pure functions of (name, offset)",
     "UnknownTimezoneWarning is observed through warnings.catch_warnings(record=True)",
+    "default= is a datetime.datetime, naive (10 values) or AWARE (4 values, ~10 % of the calls): the wall-time clauses are checked "
+    "on the default's wall time; where no zone is applied the result keeps the default's tzinfo (the model's .naive / .naiveWarn mean "
+    "'default.replace(...) as it is'), which for ignoretz=True and for an unknown abbreviation contradicts the property text: known "
+    "finding D-C15-aware-default-kept.  default=datetime.date(...) is outside the documented type ('the default datetime object'): "
+    "observed each run (TypeError when the text names a time field, a date object otherwise), reported in the histograms, not judged",
+    "a tzinfos value that is a MALFORMED TZ string is not 'a TZ string' in the sense of this property: such calls are generated, "
+    "must raise exactly what the Lean model of tz.tzstr raises (ValueError), and are counted (tzinfos_malformed_tzstring_calls); "
+    "that the exception is not a ParserError is C14's known finding D-C14-tzinfos-bad-tzstring",
+    "a failing oracle case is KNOWN only if the implementation's answer equals the Lean model's answer on it and the observed "
+    "result is exactly the listed symptom; anything else inside a known class is a VIOLATION",
 ]
 RULE = ("partial texts built from a KNOWN set of fields (20 shapes: time only, month only, month+year, weekday only, weekday+time, "
         "weekday+month, h/m/s units, MM/DD, day only, full date ...) x 10 defaults incl. day 29/30/31, Feb 29, 0001-01-01, "
@@ -59,6 +69,7 @@ def partial(rng):
 
 def expected_naive(default, fields, weekday):
     """the property's statement of the fill-in; None = construction impossible (ParserError / OverflowError expected)"""
+    default = default.replace(tzinfo=None)          # the wall-time part; what happens to an aware default's zone is clause (c)/(d)
     repl = dict(fields)
     if 'day' not in repl:
         y = repl.get('year', default.year); m = repl.get('month', default.month)
@@ -110,17 +121,20 @@ def tzcascade_requests(ctx, items):
             except OverflowError:
                 out[i] = "err OverflowError"     # the zone object's own overflow at the edge of the calendar
                 continue
-            where.append((i, None))
+            where.append((i, naive))
         elif r.startswith("ok tzi "):
             data, nm = r[7:].split(" ")
             if data == "n":
-                out[i] = "ok naive"
+                out[i] = "ok none"               # tzinfos said None: replace(tzinfo=None), naive whatever the default is
                 continue
             if data[0] == "o":
                 k = int(data[1:]); z = L.tzobjs()[k]; lab = "obj %d" % k
             else:
-                s = "".join(chr(int(x)) for x in data[1:].split("."))
-                z = tz.tzstr(s); lab = "str %s" % data[1:]
+                # TZ string: names from the Lean model of tz.tzstr (parser.assignstr), not from the implementation's object
+                second.append("parser.assignstr %s [%d,%d,%d,%d,%d,%d,%d] %s" % (data[1:], naive.year, naive.month, naive.day,
+                              naive.hour, naive.minute, naive.second, naive.microsecond, nm))
+                where.append((i, "str %s" % data[1:]))
+                continue
             try:
                 second.append("parser.assign %s %s %s" % (L.optname(naive.replace(tzinfo=z).tzname()),
                                                          L.optname(naive.replace(tzinfo=z, fold=1).tzname()), nm))
@@ -130,7 +144,12 @@ def tzcascade_requests(ctx, items):
             where.append((i, lab))
     if second:
         for (i, lab), r in zip(where, ctx.driver(second)):
-            out[i] = "ok " + (r[3:] if lab is None else "%s %s" % (lab, r[3:]))
+            if r.startswith("err "):
+                out[i] = r
+            elif isinstance(lab, datetime.datetime):      # process zone: "utc" | "local f" -> what a tzlocal built now says
+                out[i] = "ok " + (L.local_desc(lab, int(r.split()[2])) if r.startswith("ok local ") else r[3:])
+            else:
+                out[i] = "ok %s %s" % (lab, r[3:])
     return out
 
 
@@ -146,7 +165,7 @@ def gen_calls(ctx, rng, n):
             if zt and not zt.startswith(' ') and text[-1:].isalpha():
                 zt = ' ' + zt
         c = G.options(rng, text + zt, allow_custom=False)
-        c.default = rng.choice(G.DEFAULTS)
+        c.default = G.pick_default(rng, 0.1)
         c.fuzzy = c.fwt = False
         c.dayfirst = c.yearfirst = None
         c.info = None
@@ -189,6 +208,9 @@ def correspondence(ctx):
         L.set_tz(prev)
 
 
+TZ_NAMED = ["UTC+3", "GMT-2", "UTC0", "XXX0UTC,M3.5.0,M10.5.0"]     # zones CALLED UTC / GMT by a POSIX string, at any offset
+
+
 def two_markers(case):
     """D-C15 class: at least two AM/PM words after an hour (decidable on the text, stock tables)"""
     from dateutil.parser import _parser
@@ -204,15 +226,31 @@ def two_markers(case):
     return n >= 2
 
 
+def second_marker_exact(case, strict, fuzzy, model_strict, model_fuzzy):
+    """exactly D-C15-second-ampm-marker: the model says the same as the implementation in both modes, the text has a second
+    AM/PM word after an hour, and the two results differ in nothing but the hour, by the 12 h the second marker explains"""
+    if strict != model_strict or fuzzy != model_fuzzy or not two_markers(case):
+        return False
+    if not (strict.startswith("ok ") and fuzzy.startswith("ok ")):
+        return False
+    a, b = strict.split(" | "), fuzzy.split(" | ")
+    fa, fb = a[0].split()[1:], b[0].split()[1:]
+    if a[1:] != b[1:] or fa[:3] != fb[:3] or fa[4:] != fb[4:]:
+        return False
+    return (int(fa[3]) - int(fb[3])) % 24 == 12
+
+
 def oracle(ctx):
     from dateutil import parser as P, tz
     rng = ctx.subrng("oracle")
     prev = L.set_tz("UTC")
     try:
-        envs = G.TZ_ENVS if ctx.budget(0, 1) else ["UTC", "America/New_York", "Europe/London", "Asia/Kolkata", "Australia/Lord_Howe"]
+        envs = (G.TZ_ENVS + TZ_NAMED) if ctx.budget(0, 1) else ["UTC", "America/New_York", "Europe/London", "Asia/Kolkata",
+                                                                  "Australia/Lord_Howe", "UTC+3", "GMT-2", "UTC0"]
+        known_counts = {}
         for tzenv in envs:
             L.set_tz(tzenv)
-            pairs = gen_calls(ctx, rng, ctx.budget(3000, 30000))
+            pairs = gen_calls(ctx, rng, ctx.budget(1500 if tzenv in TZ_NAMED else 3000, 30000))
             answers = []
             for c, meta in pairs:
                 ans, _, raw = L.run_impl(c, raw=True)
@@ -230,6 +268,11 @@ def oracle(ctx):
                     ctx.count("expected_" + exp.split()[1])
                 else:
                     ok = ans.startswith("ok ") and raw.replace(tzinfo=None, fold=0) == exp
+                if not ok and ans == "err ValueError" and L.model_answers(ctx, [c])[0] == ans:
+                    # a MALFORMED TZ string among the tzinfos values (the Lean model of tz.tzstr rejects it too): not "a TZ
+                    # string" in the sense of this property; the escaping ValueError is C14's finding D-C14-tzinfos-bad-tzstring
+                    ctx.count("tzinfos_malformed_tzstring_calls")
+                    continue
                 if not ok and not (ans == "err OverflowError" and isinstance(exp, datetime.datetime)):
                     ctx.violation("default fill-in / clip / weekday shift: expected %s" % (exp if isinstance(exp, str) else exp.isoformat()),
                                   c.describe(), {"impl": ans, "fields": fields, "weekday": wd})
@@ -241,17 +284,47 @@ def oracle(ctx):
                                               zp[1] if not c.ignoretz else None, exp) for c, zp, exp, _, _ in items])
             for (c, zp, exp, ans, raw), ez in zip(items, exp_z):
                 got = "ok " + ans.split(" | ")[1]
+                aware_dflt = c.default.tzinfo is not None
+                if aware_dflt:                      # where the cascade applies no zone the default's tzinfo stays
+                    ez = "ok dflt" if ez == "ok naive" else (ez + " dflt" if ez.startswith("ok warn ") else ez)
+                if ez == "ok none":
+                    ez = "ok naive"
                 ctx.evaluations += 1
                 ctx.count("zone_" + ez.split(" ")[1] if ez.startswith("ok ") else "zone_err")
                 if ez.startswith("err "):
                     continue        # tzoffset overflow etc.: the call raised before; not reached here
                 if got != ez:
                     ctx.violation("zone resolution order: expected %s" % ez, c.describe(), {"impl": ans, "meaning": zp})
+                elif aware_dflt and (got.startswith("ok warn ") or (c.ignoretz and got == "ok dflt")):
+                    # the property: "an unresolvable abbreviation yields a NAIVE result with a warning", "ignoretz returns the
+                    # same wall time WITHOUT a zone" — with an aware default the result keeps the default's zone instead
+                    case = c.describe()
+                    case["known_class"] = "D-C15-aware-default-kept" if raw.tzinfo is c.default.tzinfo else None
+                    ctx.count("known_class_D-C15-aware-default-kept_hits")
+                    known_counts["ad"] = known_counts.get("ad", 0) + 1
+                    if known_counts["ad"] <= 25 or case["known_class"] is None:
+                        ctx.violation("ignoretz / an unknown abbreviation must give a naive datetime", case,
+                                      {"impl": got, "model": ez, "meaning": zp})
                 # documented consequences, stated directly
                 if raw.tzinfo is not None and zp[1] is not None and c.tz.kind == "none" and not c.ignoretz:
                     name_is_local = zp[0] is not None and zp[0] in __import__("time").tzname
                     if not name_is_local and raw.utcoffset() != datetime.timedelta(seconds=zp[1]):
                         ctx.violation("numeric offset / GMT+h meaning", c.describe(), {"impl": ans, "meaning": zp})
+                    # "UTC designators and zero offsets as UTC": whatever the process zone is called, the result must be at
+                    # offset zero.  Where the process zone is CALLED like the designator but is elsewhere it is not: known
+                    # finding D-C15-local-zone-named-utc (here impl == model already holds: got == ez was tested above)
+                    if zp[1] == 0 and raw.utcoffset() != datetime.timedelta(0):
+                        case = c.describe()
+                        exact = (name_is_local and isinstance(raw.tzinfo, tz.tzlocal)
+                                 and raw.utcoffset() == exp.replace(tzinfo=tz.tzlocal(), fold=raw.fold).utcoffset())
+                        case["known_class"] = "D-C15-local-zone-named-utc" if exact else None
+                        if exact:
+                            ctx.count("known_class_D-C15-local-zone-named-utc_hits")
+                            known_counts["lz"] = known_counts.get("lz", 0) + 1
+                            if known_counts["lz"] > 25:
+                                continue
+                        ctx.violation("a UTC designator / zero offset must give offset zero", case,
+                                      {"impl": "ok " + ans.split(" | ")[1], "model": ez, "meaning": zp})
             # ---- (d) ignoretz: same wall time, no zone
             for (c, meta), (ans, raw) in zip(pairs, answers):
                 if rng.random() < 0.3 and not c.ignoretz:
@@ -260,7 +333,22 @@ def oracle(ctx):
                     ctx.evaluations += 1
                     ctx.count("ignoretz_pairs")
                     if ans.startswith("ok "):
-                        if not (a2.startswith("ok ") and r2.tzinfo is None and r2 == raw.replace(tzinfo=None, fold=0)):
+                        if c.default.tzinfo is not None:
+                            # aware default: the wall time must be the same; the zone clause fails in exactly one way
+                            # (the default's tzinfo is kept: D-C15-aware-default-kept, model = implementation)
+                            m2 = L.model_answers(ctx, [c2])[0]
+                            if not (a2.startswith("ok ") and r2.replace(tzinfo=None) == raw.replace(tzinfo=None, fold=0)) or a2 != m2:
+                                ctx.violation("ignoretz must return the same wall time without a zone", c.describe(),
+                                              {"impl": ans, "ignoretz": a2, "model_ignoretz": m2})
+                            elif r2.tzinfo is not None:
+                                case = c2.describe()
+                                case["known_class"] = "D-C15-aware-default-kept" if r2.tzinfo is c.default.tzinfo else None
+                                ctx.count("known_class_D-C15-aware-default-kept_hits")
+                                known_counts["ad"] = known_counts.get("ad", 0) + 1
+                                if known_counts["ad"] <= 25 or case["known_class"] is None:
+                                    ctx.violation("ignoretz / an unknown abbreviation must give a naive datetime", case,
+                                                  {"impl": "ok " + a2.split(" | ")[1], "model": "ok " + m2.split(" | ")[1]})
+                        elif not (a2.startswith("ok ") and r2.tzinfo is None and r2 == raw.replace(tzinfo=None, fold=0)):
                             ctx.violation("ignoretz must return the same wall time without a zone", c.describe(), {"impl": ans, "ignoretz": a2})
                     elif ans == "err ParserError" and a2 != ans:
                         ctx.violation("ignoretz changed a failing parse", c.describe(), {"impl": ans, "ignoretz": a2})
@@ -285,7 +373,10 @@ def oracle(ctx):
                         ctx.violation("fuzzy parse of a sentence containing one date must return that date", case, {"date": inner, "strict": strict, "fuzzy": fz})
                     if f2 != strict:
                         c2 = L.Call(inner, default=d, fuzzy=True).describe()
-                        ctx.violation("text accepted without fuzzy must give the same result with fuzzy", c2, {"strict": strict, "fuzzy": f2})
+                        ms, mf = L.model_answers(ctx, [L.Call(inner, default=d), L.Call(inner, default=d, fuzzy=True)])
+                        c2["known_class"] = "D-C15-second-ampm-marker" if second_marker_exact(c2, strict, f2, ms, mf) else None
+                        ctx.violation("text accepted without fuzzy must give the same result with fuzzy", c2,
+                                      {"strict": strict, "fuzzy": f2, "model_strict": ms, "model_fuzzy": mf})
                 if fz.startswith("ok ") != ft.startswith("ok ") or (fz.startswith("ok ") and fz.split(" | ")[:2] != ft.split(" | ")[:2]):
                     ctx.violation("fuzzy_with_tokens must return the same datetime as fuzzy", case, {"fuzzy": fz, "with_tokens": ft})
                 if ft.startswith("ok "):
@@ -317,27 +408,54 @@ def oracle(ctx):
                 ctx.count("strict_accepted_texts")
                 if f2 != strict:
                     case = L.Call(t, default=d, fuzzy=True).describe()
-                    if two_markers(case):
+                    ms, mf = L.model_answers(ctx, [L.Call(t, default=d), L.Call(t, default=d, fuzzy=True)])
+                    exact = second_marker_exact(case, strict, f2, ms, mf)
+                    case["known_class"] = "D-C15-second-ampm-marker" if exact else None
+                    if exact:
                         ctx.count("known_class_D-C15_hits")
                         if ctx.hist["known_class_D-C15_hits"] > 25:
-                            continue                     # keep the (capped) violation list for anything else
+                            continue                     # every one of them was verified to be exactly the listed symptom
                     ctx.violation("text accepted without fuzzy must give the same result with fuzzy", case,
-                                  {"strict": strict, "fuzzy": f2})
+                                  {"strict": strict, "fuzzy": f2, "model_strict": ms, "model_fuzzy": mf})
+        # ---- (c') the local-name rows after process-zone switches: zones sharing an abbreviation, time.tzset() between calls
+        #      and back; every answer against the model for that zone and a fresh process whose only zone that was
+        L.zone_switch_run(ctx, ctx.subrng("zone-switch"), G.ZONE_GROUPS, ctx.budget(40, 400),
+                          "zone resolution (an abbreviation of the process zone)")
         # ---- (e) unknown abbreviation: naive + warning (TZ-independent)
         L.set_tz("UTC")
-        for nm in ["BRST", "JST", "ABCDE", "XYZ", "PDT"]:
-            ans, _, raw = L.run_impl(L.Call("10:30 " + nm), raw=True)
-            ctx.case(("unknown", nm))
-            if ans != "ok 2003 9 25 10 30 0 0 | warn %s | -" % L.cps(nm):
-                ctx.violation("unknown abbreviation must give a naive datetime and UnknownTimezoneWarning", {"text": "10:30 " + nm}, {"impl": ans})
+        # … on EVERY call: the same name three times in a row, and again after the others (a "warn once per name" memo would show)
+        unk = ["BRST", "JST", "ABCDE", "XYZ", "PDT"]
+        for rnd in range(2):
+            for nm in unk:
+                for rep in range(3):
+                    c = L.Call("10:30 " + nm)
+                    ans, _, raw = L.run_impl(c, raw=True)
+                    ctx.case(("unknown", nm, rnd, rep))
+                    ctx.evaluations += 1
+                    if ans != "ok 2003 9 25 10 30 0 0 | warn %s | -" % L.cps(nm):
+                        case = c.describe()
+                        case["call_number_for_this_name"] = rnd * 3 + rep + 1
+                        ctx.violation("unknown abbreviation must give a naive datetime and UnknownTimezoneWarning on every call", case,
+                                      {"impl": ans, "expected": "warn " + nm})
+        # default=date(...): outside the documented type; observed, not judged
+        for txt in ["10:00", "Sep 5", "2003-09-25", "Monday"]:
+            try:
+                r = P.parse(txt, default=datetime.date(2003, 9, 25))
+                got = type(r).__name__
+            except Exception as e:
+                got = L.exc_kind(e)
+            ctx.hist["date_default_%s" % txt.replace(" ", "_")] = got
         # the D-C15 witness, re-confirmed on every run
         w = L.Call("10:30 am pm")
         a1, _, _ = L.run_impl(w)
         a2, _, _ = L.run_impl(L.Call("10:30 am pm", fuzzy=True))
         ctx.case(("witness", "10:30 am pm"))
         if a1 != a2:
-            ctx.violation("text accepted without fuzzy must give the same result with fuzzy",
-                          L.Call("10:30 am pm", fuzzy=True).describe(), {"strict": a1, "fuzzy": a2})
+            wc = L.Call("10:30 am pm", fuzzy=True).describe()
+            ms, mf = L.model_answers(ctx, [w, L.Call("10:30 am pm", fuzzy=True)])
+            wc["known_class"] = "D-C15-second-ampm-marker" if second_marker_exact(wc, a1, a2, ms, mf) else None
+            ctx.violation("text accepted without fuzzy must give the same result with fuzzy", wc,
+                          {"strict": a1, "fuzzy": a2, "model_strict": ms, "model_fuzzy": mf})
         ctx.sample({"text": "10:30 am pm", "strict": a1, "fuzzy": a2})
         ctx.sample({"text": "Feb (default 2001-01-31)", "impl": L.run_impl(L.Call("Feb", default=datetime.datetime(2001, 1, 31)))[0]})
         ctx.sample({"text": "10:00 GMT+3", "impl": L.run_impl(L.Call("10:00 GMT+3"))[0]})
@@ -347,13 +465,22 @@ def oracle(ctx):
 
 
 KNOWN = {
-    "D-C15-second-ampm-marker": lambda v: v["what"].startswith("text accepted without fuzzy") and two_markers(v["case"]),
+    # known only if the implementation's answers equal the model's (both modes) and the symptom is exactly the listed one
+    "D-C15-second-ampm-marker": lambda v: v["what"].startswith("text accepted without fuzzy")
+    and v["case"].get("known_class") == "D-C15-second-ampm-marker"
+    and v["detail"].get("strict") == v["detail"].get("model_strict") and v["detail"].get("fuzzy") == v["detail"].get("model_fuzzy"),
+    "D-C15-aware-default-kept": lambda v: v["case"].get("known_class") == "D-C15-aware-default-kept"
+    and v["detail"].get("impl") is not None and v["detail"].get("impl") == v["detail"].get("model"),
+    "D-C15-local-zone-named-utc": lambda v: v["case"].get("known_class") == "D-C15-local-zone-named-utc"
+    and v["detail"].get("impl") is not None and v["detail"].get("impl") == v["detail"].get("model"),
 }
 
 
 def replay(ctx, payload):
     import copy
     c = payload["violation"]["case"]
+    if c.get("TZ_sequence") is not None:
+        return L.zone_switch_replay(ctx, c)
     base = L.call_from_case(c)
     def variant(**kw):
         x = copy.copy(base)
@@ -364,6 +491,7 @@ def replay(ctx, payload):
     prev = L.set_tz(c.get("TZ") or "UTC")
     try:
         a0, _, _ = L.run_impl(base)
+        a0b, _, _ = L.run_impl(base)                # again: state left by the first call (a warn-once memo) shows here
         a1, _, _ = L.run_impl(variant())
         a2, _, _ = L.run_impl(variant(fuzzy=True))
         a3, _, _ = L.run_impl(variant(fwt=True))
@@ -373,4 +501,6 @@ def replay(ctx, payload):
         L.set_tz(prev)
     print("parse(%s) [tzinfos=%s parserinfo=%s TZ=%s]: as recorded=%s model=%s | strict=%s fuzzy=%s fuzzy_with_tokens=%s ignoretz=%s"
           % (ascii(c["text"]), c.get("tzinfos"), c.get("parserinfo"), c.get("TZ"), a0, m, a1, a2, a3, a4))
-    return ((not a1.startswith("ok ")) or a1 == a2) and a0 == m
+    if a0b != a0:
+        print("the same call again: %s" % a0b)
+    return ((not a1.startswith("ok ")) or a1 == a2) and a0 == m and a0b == m
